@@ -168,6 +168,53 @@ def _install_crosshair(reals_only: bool = True):
         import crosshair.libimpl.builtinslib as B
 
         B._PYTYPE_TO_WRAPPER_TYPE[float] = ((B.RealBasedSymbolicFloat, 1.0),)
+    _patch_float_to_int()
+
+
+def _patch_float_to_int():
+    """CrossHair's patches of int()/math.floor()/math.ceil() realise a symbolic float although the proxy
+    implements __int__/__floor__/__ceil__ symbolically (z3 ToInt).  Route real-based floats there."""
+    import math
+
+    import crosshair.core as C
+    import crosshair.libimpl.builtinslib as B
+    from crosshair.tracers import NoTracing
+
+    if getattr(C, "_verif_f2i", False):
+        return
+    C._verif_f2i = True
+    reg = C._PATCH_REGISTRATIONS
+    orig_int = reg.get(int)
+
+    def _int(val=0, *a, **k):
+        with NoTracing():
+            sym_float = isinstance(val, B.RealBasedSymbolicFloat) and not a and not k
+            plain = not sym_float and not any(
+                type(v).__module__.startswith("crosshair") for v in (val,) + a + tuple(k.values()))
+            if plain:
+                return int(val, *a, **k)
+        if sym_float:
+            return val.__int__()
+        return orig_int(val, *a, **k)
+
+    reg[int] = _int
+    for name, dunder in (("floor", "__floor__"), ("ceil", "__ceil__"), ("trunc", "__trunc__")):
+        fn = getattr(math, name)
+        orig = reg.get(fn)
+
+        def mk(fn=fn, orig=orig, dunder=dunder):
+            def _f(x):
+                with NoTracing():
+                    sym_float = isinstance(x, B.RealBasedSymbolicFloat)
+                    if not sym_float and not type(x).__module__.startswith("crosshair"):
+                        return fn(x)
+                if sym_float:
+                    return getattr(x, dunder)()
+                return orig(x) if orig else fn(x)
+
+            return _f
+
+        reg[fn] = mk()
 
 
 def _model_values(space, bound_args):
